@@ -42,7 +42,8 @@ def run(tier):
     V = core.Verdict(PID)
     rnd = random.Random(core.seed())
     cov, covstats = stream.cover_histories(pairs=False)
-    cov = [h for h in cov if len(h) >= 4]
+    covcc, _ = stream.cover_histories(pairs=False, cfg="Cover_Stream_cc")
+    cov = [h for h in cov + covcc * 3 if len(h) >= 4]
     hists = rnd.sample(cov, min(len(cov), 260 if tier == "quick" else 3000))
     jobs = []
     for i, h in enumerate(hists):
